@@ -197,8 +197,9 @@ Section Laws.
     specialize (Sinv eq_refl).
     pose proof (mode_val_mode _ _ _ _ _ _ _ _ _ _ Hp) as Smode.
     pose proof (block_nonneg _ _ _ Eab) as Hbb. rewrite <- Sblk in Hbb.
-    unfold run_sym_encrypt in H.
-    destruct (lib_sym_ok false sp (zlen msg)) eqn:Hl; try discriminate.
+    unfold run_sym_encrypt, lib_sym_stage in H.
+    destruct (lib_sym_ok false sp (zlen msg)) eqn:Hl;
+      [|repeat match type of H with context [if ?b then _ else _] => destruct b end; discriminate].
     injection H as <-. cbn [eo_iv eo_tag eo_ct].
     set (data := match p_pad sp with PScheme s => pad s (p_block sp) msg | _ => msg end) in *.
     set (r := E (p_alg sp) (p_key sp) (mode_val (p_mode sp)) (mode_iv urandom (p_mode sp)) (p_aad sp) data) in *.
@@ -236,7 +237,7 @@ Section Laws.
                      | PScheme s => unpad s (p_block sp) data = Some msg
                      end).
     { unfold data. destruct (p_pad sp) eqn:Es; auto. apply unpad_pad. eauto. }
-    unfold run_sym_decrypt.
+    unfold run_sym_decrypt, lib_sym_stage.
     assert (Hok : lib_sym_ok true (inv_plan sp tagv) (zlen (fst r)) = true).
     { unfold lib_sym_ok, inv_plan. cbn [p_alg p_key p_mode p_pad p_block p_aad p_gcm].
       rewrite mode_val_inv. rewrite H1. cbn [andb].
@@ -326,7 +327,9 @@ Proof.
   pose proof (sym_plan_shape _ _ _ _ _ _ _ _ _ _ Hp) as (Sa & _).
   destruct (gcm_plan _ _ _ _ _ _ _ _ _ Hrc Hp) as (Haad & _ & Hpad & Hkey & _ & Hd).
   destruct (Hd eq_refl) as (v & t & -> & -> & Hm).
-  unfold run_sym_decrypt in H. destruct (lib_sym_ok true sp (zlen ct)); try discriminate.
+  unfold run_sym_decrypt, lib_sym_stage in H.
+  destruct (lib_sym_ok true sp (zlen ct));
+    [|repeat match type of H with context [if ?b then _ else _] => destruct b end; discriminate].
   rewrite Hm, Hpad, Haad, Hkey, Sa in H. cbn in H.
   destruct (Dp a key BCM_GCM (Some v) aad (Some t) ct); try discriminate.
   injection H as ->. reflexivity.
@@ -378,11 +381,29 @@ Proof.
     destruct loads; cbn in H; try discriminate.
     destruct padm as [pv|]; try discriminate.
     left. cbn. rewrite Ea. cbn.
+    destruct (assoc hv enc_hashes) as [h1|]; try discriminate.
     destruct (pv =? PM_PSS) eqn:E1.
-    + apply Ok_inj in H; subst sp. cbn in Hh. destruct (assoc hv enc_hashes); try discriminate. reflexivity.
+    + apply Ok_inj in H; subst sp. reflexivity.
     + destruct (pv =? PM_PKCS1v15) eqn:E2; try discriminate.
-      apply Ok_inj in H; subst sp. cbn in Hh. destruct (assoc hv enc_hashes); try discriminate. reflexivity.
+      apply Ok_inj in H; subst sp. reflexivity.
 Qed.
+
+(* since fix fd6e5cc: Sign refuses a hash it has no mapping for, so every accepted plan names its hash *)
+Lemma sign_plan_has_hash p sp : sign_plan p = Ok sp -> lib_sign_ok sp = true.
+Proof.
+  unfold sign_plan, lib_sign_ok. intros H.
+  match type of H with (match ?sel with _ => _ end) = _ => destruct sel as [e|[h a]] end; try discriminate.
+  destruct (negb (oeqZ a CA_RSA)); try discriminate.
+  destruct (negb (s_key_loads p)); try discriminate.
+  destruct (s_pad p) as [pv|]; try discriminate.
+  destruct h as [h|]; try discriminate.
+  destruct (pv =? PM_PSS); [apply Ok_inj in H; subst sp; reflexivity|].
+  destruct (pv =? PM_PKCS1v15); try discriminate. apply Ok_inj in H; subst sp; reflexivity.
+Qed.
+
+Lemma verify_matches_sign' p sp :
+  sign_plan p = Ok sp -> verify_plan p = Ok sp \/ (verify_plan p = Err InvalidField /\ dsa_inconsistent p).
+Proof. intros H. apply verify_matches_sign; auto. eapply sign_plan_has_hash; eauto. Qed.
 
 (* a digital signature algorithm and the equivalent separate (RSA, hash) parameters select the same plan *)
 Lemma sign_dsa_eq_separate d h hv padm loads a0 h0 :
@@ -426,7 +447,8 @@ Lemma derive_plan_len p dp :
 Proof.
   unfold derive_plan. intros H.
   destruct (oeqZ (d_method p) DM_ENCRYPT).
-  - destruct (encrypt_plan _); try discriminate. apply Ok_inj in H. now subst.
+  - destruct (negb (is_some (d_data p))); try discriminate.
+    destruct (encrypt_plan _); try discriminate. apply Ok_inj in H. now subst.
   - destruct (d_hash p) as [hv|]; try discriminate.
     destruct (assoc hv enc_hashes) as [h|]; try discriminate.
     destruct (oeqZ (d_method p) DM_HMAC); [apply Ok_inj in H; now subst|].
@@ -453,12 +475,16 @@ Proof.
 Qed.
 
 Lemma derive_encrypt_is_encrypt p :
-  d_method p = Some DM_ENCRYPT ->
+  d_method p = Some DM_ENCRYPT -> is_some (d_data p) = true ->
   derive_plan p =
   match encrypt_plan (mkEnc (d_alg p) (match d_key p with Some k => k | None => [] end) (d_key_loads p)
                             (d_mode p) (d_pad p) (d_iv p) None None None None) with
   | Err e => Err e | Ok c => Ok (DEncrypt c) end.
-Proof. intros H. unfold derive_plan. rewrite H. reflexivity. Qed.
+Proof. intros H Hd. unfold derive_plan. rewrite H, Hd. reflexivity. Qed.
+
+Lemma derive_encrypt_needs_data p :
+  d_method p = Some DM_ENCRYPT -> d_data p = None -> derive_plan p = Err InvalidField.
+Proof. intros H Hd. unfold derive_plan. rewrite H, Hd. reflexivity. Qed.
 
 (* ------------------------------------------------------------------ acceptance characterised; no third outcome *)
 Definition sym_accepts_enc (a : Z) (key : bytes) (mode padm : option Z) (aad : option bytes) (taglen : option Z) : bool :=
@@ -477,3 +503,116 @@ Definition sym_accepts_enc (a : Z) (key : bytes) (mode padm : option Z) (aad : o
    (Where the Python can leave with a non-KMIP exception the plan exists and lib_*_ok is false: C13's concern.) *)
 Lemma res_total {A} (r : res A) : (exists e, r = Err e) \/ (exists a, r = Ok a).
 Proof. destruct r; eauto. Qed.
+
+(* ------------------------------------------------------------------ no non-KMIP outcome left (fix: f8d262f..fd6e5cc) *)
+(* the two remaining non-KMIP exceptions need a cipher class without block size / a cipher used without mode: RC4 *)
+Lemma stage_crash_only_without_block_or_mode dec p n :
+  lib_sym_stage dec p n = LCrash -> p_block p <= 0 \/ mode_val (p_mode p) = -1.
+Proof.
+  intros H.
+  destruct (Z_le_gt_dec (p_block p) 0) as [|Hb]; [left; assumption|].
+  destruct (Z.eq_dec (mode_val (p_mode p)) (-1)) as [|Hm]; [right; assumption|].
+  exfalso. revert H. unfold lib_sym_stage.
+  destruct (lib_sym_ok dec p n) eqn:Hok; [discriminate|].
+  destruct (negb (lib_ctor_ok (p_mode p))) eqn:Hc; [discriminate|].
+  assert (Hpc : lib_pad_crash p = false).
+  { unfold lib_pad_crash. destruct (p_pad p); auto. lia. }
+  rewrite Hpc, andb_false_r.
+  destruct (negb (lib_cipher_ops_ok dec p n)) eqn:Ho; [discriminate|].
+  intros _.
+  (* all stages pass, so lib_sym_ok holds: contradiction *)
+  apply negb_false_iff in Hc. apply negb_false_iff in Ho.
+  unfold lib_cipher_ops_ok in Ho.
+  apply andb_prop in Ho. destruct Ho as [Ho O4].
+  apply andb_prop in Ho. destruct Ho as [Ho O3].
+  apply andb_prop in Ho. destruct Ho as [O1 O2].
+  assert (lib_sym_ok dec p n = true); [|congruence].
+  unfold lib_sym_ok. rewrite O1, O4. cbn [andb].
+  assert (Hmv : (mode_val (p_mode p) =? -1) = false) by lia. rewrite Hmv, andb_false_r. cbn [negb andb].
+  rewrite andb_true_r.
+  apply andb_true_intro. split.
+  - apply andb_true_intro. split; [|reflexivity].
+    unfold lib_mode_ok, lib_ctor_ok in *. destruct (p_mode p); auto.
+    rewrite Hc. exact O2.
+  - destruct (p_pad p); auto. lia.
+Qed.
+
+Lemma sym_algs_only_rc4_blockless :
+  forallb (fun e : Z * (Z * list Z) => (fst e =? CA_RC4) || (0 <? fst (snd e) / 8)) sym_algs = true.
+Proof. vm_compute. reflexivity. Qed.
+
+Lemma non_rc4_plan_has_mode dec a key mode padm iv aad taglen tag sp :
+  sym_plan_of dec a key mode padm iv aad taglen tag = Ok sp -> a <> CA_RC4 ->
+  mode_val (p_mode sp) <> -1 /\ 0 < p_block sp.
+Proof.
+  intros H Hrc.
+  pose proof (sym_plan_shape _ _ _ _ _ _ _ _ _ _ H) as (_ & _ & _ & _ & _ & _ & (bb & ks & Eab & Sblk) & _).
+  split.
+  - unfold sym_plan_of in H. rewrite Eab in H.
+    destruct (negb (memZ (8 * zlen key) ks)); try discriminate.
+    destruct (negb (oeqZ mode BCM_GCM) && is_some aad); try discriminate.
+    destruct (oeqZ mode BCM_GCM && negb (if dec then is_some tag else is_some taglen)); try discriminate.
+    assert (Erc : (a =? CA_RC4) = false) by lia. rewrite Erc in H.
+    destruct mode as [m|]; try discriminate.
+    destruct (assoc m cipher_modes) as [tk|] eqn:Em; try discriminate.
+    assert (Hm1 : m <> -1).
+    { intros ->. vm_compute in Em. discriminate. }
+    destruct tk.
+    + destruct iv as [v|]; destruct dec; cbn [negb andb] in H; try discriminate;
+        destruct (is_invalid (pad_step_of (Some m) padm)); cbn [negb andb] in H; try discriminate;
+        apply Ok_inj in H; subst sp; cbn [p_mode];
+        (destruct (oeqZ (Some m) BCM_GCM); cbn [mode_val]; [vm_compute; discriminate|exact Hm1]).
+    + destruct (negb dec && is_invalid (pad_step_of (Some m) padm)); try discriminate.
+      apply Ok_inj in H; subst sp; cbn [p_mode mode_val]. exact Hm1.
+  - rewrite Sblk.
+    pose proof (assoc_forallb _ _ _ _ Eab sym_algs_only_rc4_blockless) as P. cbn [fst snd] in P. lia.
+Qed.
+
+Section NoCrash.
+  Variable E : Z -> bytes -> Z -> option bytes -> option bytes -> bytes -> bytes * bytes.
+  Variable Dp : Z -> bytes -> Z -> option bytes -> option bytes -> option bytes -> bytes -> option bytes.
+  Variable urandom : Z -> bytes.
+
+  (* every parameter tuple and message, any algorithm but RC4: Encrypt ends in a result or a KMIP error class *)
+  Lemma do_encrypt_no_crash a key mode padm iv aad taglen msg :
+    a <> CA_RC4 -> do_encrypt E urandom a key mode padm iv aad taglen msg <> RCrash.
+  Proof.
+    intros Hrc. unfold do_encrypt.
+    destruct (sym_plan_of false a key mode padm iv aad taglen None) as [e|sp] eqn:Hp; [discriminate|].
+    destruct (non_rc4_plan_has_mode _ _ _ _ _ _ _ _ _ _ Hp Hrc) as [Hm Hb].
+    unfold run_sym_encrypt.
+    destruct (lib_sym_stage false sp (zlen msg)) eqn:Hs; try discriminate.
+    apply stage_crash_only_without_block_or_mode in Hs. lia.
+  Qed.
+
+  Lemma do_decrypt_no_crash a key mode padm iv aad tag ct :
+    a <> CA_RC4 -> do_decrypt Dp urandom a key mode padm iv aad tag ct <> RCrash.
+  Proof.
+    intros Hrc. unfold do_decrypt.
+    destruct (sym_plan_of true a key mode padm iv aad None tag) as [e|sp] eqn:Hp; [discriminate|].
+    destruct (non_rc4_plan_has_mode _ _ _ _ _ _ _ _ _ _ Hp Hrc) as [Hm Hb].
+    unfold run_sym_decrypt.
+    destruct (lib_sym_stage true sp (zlen ct)) eqn:Hs; try discriminate.
+    - destruct (Dp _ _ _ _ _ _ _); try discriminate.
+      destruct (p_pad sp); try discriminate.
+      destruct (unpad _ _ _); discriminate.
+    - apply stage_crash_only_without_block_or_mode in Hs. lia.
+  Qed.
+
+  (* a refusal by the authenticated decryptor (InvalidTag) surfaces as CryptographicFailure *)
+  Lemma gcm_reject_is_cryptographic_failure a key padm iv aad tag ct sp :
+    sym_plan_of true a key (Some BCM_GCM) padm iv aad None tag = Ok sp ->
+    lib_sym_stage true sp (zlen ct) = LOk ->
+    Dp (p_alg sp) (p_key sp) (mode_val (p_mode sp)) (mode_iv urandom (p_mode sp)) (p_aad sp) (mode_tag (p_mode sp)) ct = None ->
+    do_decrypt Dp urandom a key (Some BCM_GCM) padm iv aad tag ct = RErr CryptographicFailure.
+  Proof.
+    intros Hp Hs Hd. unfold do_decrypt. rewrite Hp. unfold run_sym_decrypt. rewrite Hs, Hd. reflexivity.
+  Qed.
+End NoCrash.
+
+Lemma kdf_stage_never_crashes dp n :
+  match dp with DEncrypt _ => True | _ => lib_der_stage dp n <> LCrash end.
+Proof.
+  destruct dp; auto; unfold lib_der_stage;
+    match goal with |- context [if ?b then _ else _] => destruct b end; discriminate.
+Qed.
